@@ -570,13 +570,17 @@ def _native_geometry(tier="quick", seed=0):
             bad = bad or "add_connector(%d, %d, %d, %d): box (left, top, width, height) = %r" % (bx, by, ex, ey, (cx.left, cx.top, cx.width, cx.height))
         for attr, idx in (("begin_x", 0), ("begin_y", 1), ("end_x", 2), ("end_y", 3)):
             for v in (0, 50, 3000, 5000, 9000, 20000):
-                want = list((cx.begin_x, cx.begin_y, cx.end_x, cx.end_y))
-                setattr(cx, attr, Emu(v))
-                want[idx] = v
-                evals += 1
-                got = [cx.begin_x, cx.begin_y, cx.end_x, cx.end_y]
-                if got != want:
-                    bad = bad or "connector %r: %s = %d gives %r" % (tuple(want[:idx] + ["?"] + want[idx + 1:]), attr, v, tuple(got))
+                # each move from the pristine connector (so that every crossing really happens), then a second move on top of it
+                c2 = sl.shapes.add_connector(MSO_CONNECTOR.STRAIGHT, Emu(bx), Emu(by), Emu(ex), Emu(ey))
+                want = [bx, by, ex, ey]
+                for a2, i2, v2 in ((attr, idx, v), (("end_y", 3, 4000) if attr != "end_y" else ("begin_y", 1, 4000))):
+                    setattr(c2, a2, Emu(v2))
+                    want[i2] = v2
+                    evals += 1
+                    got = [c2.begin_x, c2.begin_y, c2.end_x, c2.end_y]
+                    if got != want:
+                        bad = bad or "connector (%d, %d, %d, %d): after %s = %d it reads %r, expected %r" % (bx, by, ex, ey, a2, v2, tuple(got), tuple(want))
+                c2._element.getparent().remove(c2._element)
     rec("C17.native.connector_end_points_read_back_and_are_independent", bad)
     # groups: the group's box is the bounding box of its members (also zero-width / zero-height members), upward through nesting
     bad = None
